@@ -52,18 +52,52 @@ type Event struct {
 	CBRuntime time.Duration
 }
 
-type UserErr struct{ Fn, Exec int }
+type UserErr struct {
+	Fn, Exec int
+	Inner    error // EK 1: a dig.Error from another container, wrapped
+}
 
-func (e *UserErr) Error() string { return fmt.Sprintf("user error of f%d exec %d", e.Fn, e.Exec) }
+func (e *UserErr) Error() string {
+	if e.Inner != nil {
+		return fmt.Sprintf("user error of f%d exec %d: %v", e.Fn, e.Exec, e.Inner)
+	}
+	return fmt.Sprintf("user error of f%d exec %d", e.Fn, e.Exec)
+}
+func (e *UserErr) Unwrap() error { return e.Inner }
 
 type PanicVal struct{ Fn, Exec int }
+
+// PanicErr is a panic value that is an error (PK 1-3), possibly wrapping a
+// dig.Error obtained from another container.
+type PanicErr struct {
+	Fn, Exec int
+	Inner    error
+}
+
+func (e *PanicErr) Error() string { return fmt.Sprintf("panic error of f%d exec %d", e.Fn, e.Exec) }
+func (e *PanicErr) Unwrap() error { return e.Inner }
+
+// dig errors obtained from scratch containers (what user code that drives a
+// second container would get and pass on)
+var foreignMissingErr, foreignCycleErr = func() (error, error) {
+	c := dig.New()
+	missing := c.Invoke(func(*T4) {})
+	c2 := dig.New()
+	_ = c2.Provide(func(*T0) *T1 { return nil })
+	cyc := c2.Provide(func(*T1) *T0 { return nil })
+	if missing == nil || cyc == nil || !dig.IsCycleDetected(cyc) {
+		panic("harness: could not obtain foreign dig errors")
+	}
+	return missing, cyc
+}()
 
 type RT struct {
 	Log       []Event
 	Toks      []TokDesc // token t is Toks[t-1]
 	execs     map[int]int
 	errs      map[[2]int]*UserErr
-	panics    map[[2]int]*PanicVal
+	panics    map[[2]int]interface{}
+	ek, pk    map[int]int // fn id -> error / panic kind (from the Fn specs seen)
 	curOp     int
 	advance   func(time.Duration)
 	ftypes    map[*Fn]reflect.Type
@@ -76,7 +110,7 @@ type RT struct {
 }
 
 func newRT() *RT {
-	return &RT{infos: infoSlots{map[int]*dig.ProvideInfo{}, map[int]*dig.DecorateInfo{}, map[int]*dig.InvokeInfo{}}, decoIDs: map[int]bool{}, ftypes: map[*Fn]reflect.Type{}, execs: map[int]int{}, errs: map[[2]int]*UserErr{}, panics: map[[2]int]*PanicVal{}, active: map[int]int{}}
+	return &RT{infos: infoSlots{map[int]*dig.ProvideInfo{}, map[int]*dig.DecorateInfo{}, map[int]*dig.InvokeInfo{}}, decoIDs: map[int]bool{}, ftypes: map[*Fn]reflect.Type{}, execs: map[int]int{}, errs: map[[2]int]*UserErr{}, panics: map[[2]int]interface{}{}, ek: map[int]int{}, pk: map[int]int{}, active: map[int]int{}}
 }
 
 func (rt *RT) newTok(fn, exec int, slot string, elem int) int64 {
@@ -96,17 +130,32 @@ func (rt *RT) errOf(fn, exec int) *UserErr {
 	if e, ok := rt.errs[k]; ok {
 		return e
 	}
-	e := &UserErr{fn, exec}
+	e := &UserErr{Fn: fn, Exec: exec}
+	if rt.ek[fn] == 1 {
+		e.Inner = foreignMissingErr
+	}
 	rt.errs[k] = e
 	return e
 }
 
-func (rt *RT) panicOf(fn, exec int) *PanicVal {
+func (rt *RT) panicOf(fn, exec int) interface{} {
 	k := [2]int{fn, exec}
 	if e, ok := rt.panics[k]; ok {
 		return e
 	}
-	e := &PanicVal{fn, exec}
+	var e interface{}
+	switch rt.pk[fn] {
+	case 1:
+		e = &PanicErr{Fn: fn, Exec: exec}
+	case 2:
+		e = &PanicErr{Fn: fn, Exec: exec, Inner: foreignMissingErr}
+	case 3:
+		e = &PanicErr{Fn: fn, Exec: exec, Inner: foreignCycleErr}
+	case 4:
+		e = fmt.Sprintf("panic of f%d exec %d", fn, exec)
+	default:
+		e = &PanicVal{fn, exec}
+	}
 	rt.panics[k] = e
 	return e
 }
@@ -310,6 +359,7 @@ func (rt *RT) typeOfFn(f *Fn) reflect.Type {
 
 // call is the body shared by every materialised function.
 func (rt *RT) call(f *Fn, args []reflect.Value) []reflect.Value {
+	rt.ek[f.ID], rt.pk[f.ID] = f.EK, f.PK
 	exec := rt.execs[f.ID]
 	rt.execs[f.ID]++
 	ev := Event{Kind: EvEnter, Op: rt.curOp, Fn: f.ID, Exec: exec}
